@@ -81,6 +81,13 @@ func c14Menu(initial int) []c14Doc {
 		{"undefined-directive", "type Bad4 @zq7 { a: Int }\n"},
 	}
 	out := append([]c14Doc{}, valid...)
+	// every valid prefix of the failing documents is also a valid load of its own: after the failing document was rolled
+	// back, the same definitions must load exactly as if the failure had never happened (nothing may linger in a lookup table)
+	for _, p := range prefixes {
+		if p.sdl != "" {
+			out = append(out, c14Doc{Name: "V-again-" + p.name, SDL: p.sdl})
+		}
+	}
 	for _, p := range prefixes {
 		for _, f := range failures {
 			out = append(out, c14Doc{Name: "F-" + f.name + "-after-" + p.name, SDL: p.sdl + f.sdl})
@@ -114,7 +121,11 @@ func c14Observe(root *ggql.Root) (string, *core.PanicInfo) {
 		} else {
 			b.WriteString("CANON:\n" + back.Canonical(sgen.CanonOpts{}) + "\n")
 		}
-		for _, rq := range []string{introQuery, "{__typename}", "mutation {__typename}", "{__type(name:\"N1\"){name fields{name}}}"} {
+		// besides introspection: requests that go through the name lookup tables a load fills (fields, enum values, input
+		// fields, union members, directives, types) for every name the menu's documents introduce
+		for _, rq := range []string{introQuery, "{__typename}", "mutation {__typename}", "{__type(name:\"N1\"){name fields{name}}}",
+			"{px px1 px2 added alt}", "mutation {pm}", "{pick(e: PUCE)}", "{pick(e: PINK)}", "{pick(in: {min: 1, more: 2})}", "{u{... on Ev{__typename}}}", "{a @pd {id}}", "{a @nd {id}}",
+			"{__type(name:\"P1\"){name} p2: __type(name:\"P2\"){name} alt: __type(name:\"Alt\"){name}}", "{a{nick} named{nick}}"} {
 			res := root.ResolveString(rq, "", nil)
 			b.WriteString("REQ: " + string(toJSON(canonIntro(world.Canon(res)))) + "\n")
 		}
@@ -177,6 +188,12 @@ func runC14(c *core.Ctx) {
 	var idx int64
 	for variant := 0; variant < 3 && completed; variant++ {
 		menu := c14Menu(variant)
+		nValid := 0
+		for _, d := range menu {
+			if strings.HasPrefix(d.Name, "V-") && d.AddTypes == nil {
+				nValid++
+			}
+		}
 		var seq []int
 		var rec func()
 		rec = func() {
@@ -198,7 +215,7 @@ func runC14(c *core.Ctx) {
 			}
 			for i := range menu {
 				// quick: histories of length 3 only after two of the first 6 menu entries (the valid documents and the first failures)
-				if !c.Thorough() && len(seq) == 2 && (seq[0] >= 6 || seq[1] >= 6) {
+				if !c.Thorough() && len(seq) == 2 && (seq[0] >= nValid+2 || seq[1] >= nValid+2) {
 					continue
 				}
 				seq = append(seq, i)
@@ -246,7 +263,7 @@ func runC14(c *core.Ctx) {
 			}
 		}
 	}
-	c.R.Bound = fmt.Sprintf("all load histories of length <= %d (quick: length 3 only after two of the first 6 menu entries); all reader-fault offsets", maxLen)
+	c.R.Bound = fmt.Sprintf("all load histories of length <= %d (quick: length 3 only after two of the valid documents or the first two failures); all reader-fault offsets", maxLen)
 	if !completed {
 		c.Cap("deadline reached")
 	}
@@ -317,13 +334,13 @@ func c14Run(c *core.Ctx, variant int, menu []c14Doc, seq []int) {
 		final, _ := c14Observe(root)
 		root2 := c14Initial(variant)
 		for i, mi := range seq {
-			if !ok[i] {
-				continue
+			if !ok[i] && strings.HasPrefix(menu[mi].Name, "F-") {
+				continue // the failing documents are deleted; a document that is valid on its own stays, whatever it did above
 			}
 			err, pi := c14Apply(root2, menu[mi])
-			if pi != nil || err != nil {
+			if pi != nil || (err == nil) != ok[i] {
 				c.Outcome("reduced-history-differs")
-				c.Violation("history-diff", map[string]string{"what": "later-load-behaves-differently", "doc": menu[mi].Name}, detail(fmt.Sprintf("with the failing loads deleted, %s fails: %v %v", menu[mi].Name, err, pi), i))
+				c.Violation("history-diff", map[string]string{"what": "later-load-behaves-differently", "doc": menu[mi].Name}, detail(fmt.Sprintf("with the failing loads deleted, %s gives error=%v panic=%v; after the failed loads it gave accepted=%v", menu[mi].Name, err, pi, ok[i]), i))
 				return
 			}
 		}
